@@ -307,7 +307,10 @@ pub fn parse_linked_list(to_parse: &str) -> Result<Unifiable, String> {
                         return Err(err);
                     }
 
-                    match make_logic_var(term_str2.to_string()) {
+                    // The tail can be the anonymous variable: [$H | $_]
+                    let tail_term = if term_str2 == "$_" { Ok(Anonymous) }
+                                    else { make_logic_var(term_str2.to_string()) };
+                    match tail_term {
                         Err(_) => {
                             let err = pll_error(
                                      "Require variable after vertical bar", s);
